@@ -385,7 +385,8 @@ Section Mutators.
     SafeWF B T t -> mask t <> 0 -> i < nb T t -> is_full (byte T t i) = true ->
     (c = DELETED /\ gl = growth_left t) \/ (c = EMPTY /\ gl = wadd 64 (growth_left t) 1) ->
     exists t1, set_ctrl B T t i c = Ok t1 /\
-               ErasedAt t i (with_counts T t1 (wsub 64 (items t) 1) gl).
+               ErasedAt t i (with_counts T t1 (wsub 64 (items t) 1) gl) /\
+               byte T (with_counts T t1 (wsub 64 (items t) 1) gl) i = c.
   Proof.
     intros H Hm Hi Hf Hc.
     destruct (SafeWF_alloc B T t H Hm) as (HS & HM & HC).
@@ -405,6 +406,7 @@ Section Mutators.
     assert (Ebyte : forall j, byte T t' j = byte T t1 j) by reflexivity.
     assert (Ereal : real_ctrl T t' = real_ctrl T t1) by reflexivity.
     assert (Ebi : byte T t' i = c) by (rewrite Ebyte, Hb1 by exact Hi; rewrite Nat.eqb_refl; reflexivity).
+    split; [|exact Ebi].
     unfold ErasedAt. rewrite Ebi, Ereal.
     change (mask t') with (mask t1). change (slots t') with (slots t1).
     change (items t') with (wsub 64 (items t) 1). change (growth_left t') with gl.
@@ -437,10 +439,37 @@ Section Mutators.
     rewrite (load_ok B T t _ HS) by (pose proof (n_index_before_lt t i HS); lia).
     rewrite (load_ok B T t i HS) by lia. cbn [bind].
     match goal with |- context [erase_choose_deleted ?a ?b ?c] => destruct (erase_choose_deleted a b c) end.
-    - destruct (erase_aux t i DELETED (growth_left t) H Hm Hi Hf ltac:(left; split; reflexivity)) as (t1 & E1 & Hspec).
+    - destruct (erase_aux t i DELETED (growth_left t) H Hm Hi Hf ltac:(left; split; reflexivity)) as (t1 & E1 & Hspec & _).
       rewrite E1. cbn [bind]. eexists. split; [reflexivity|exact Hspec].
-    - destruct (erase_aux t i EMPTY (wadd 64 (growth_left t) 1) H Hm Hi Hf ltac:(right; split; reflexivity)) as (t1 & E1 & Hspec).
+    - destruct (erase_aux t i EMPTY (wadd 64 (growth_left t) 1) H Hm Hi Hf ltac:(right; split; reflexivity)) as (t1 & E1 & Hspec & _).
       rewrite E1. cbn [bind]. eexists. split; [reflexivity|exact Hspec].
+  Qed.
+
+  (* which byte erase writes: DELETED iff erase_choose_deleted on the two loaded groups *)
+  Theorem erase_choice t i :
+    SafeWF B T t -> mask t <> 0 -> i < nb T t -> is_full (byte T t i) = true ->
+    exists gb ga t', load B T t (n_index_before GW (mask t) i) = Ok gb /\ load B T t i = Ok ga /\
+      erase B T t i = Ok t' /\
+      byte T t' i = if erase_choose_deleted (zn GW) (zn (g_empty_lz B gb)) (zn (g_empty_tz B ga))
+                    then DELETED else EMPTY.
+  Proof.
+    intros H Hm Hi Hf.
+    destruct (SafeWF_alloc B T t H Hm) as (HS & HM & HC).
+    pose proof (load_ok B T t (n_index_before GW (mask t) i) HS
+                  ltac:(pose proof (n_index_before_lt t i HS); lia)) as Eb.
+    pose proof (load_ok B T t i HS ltac:(lia)) as Ea.
+    set (gb := firstn GW (skipn (n_index_before GW (mask t) i) (ctrl t))) in *.
+    set (ga := firstn GW (skipn i (ctrl t))) in *.
+    cut (exists t', erase B T t i = Ok t' /\
+           byte T t' i = if erase_choose_deleted (zn GW) (zn (g_empty_lz B gb)) (zn (g_empty_tz B ga))
+                         then DELETED else EMPTY).
+    { intros (t' & E & Hb). exists gb, ga, t'. split; [exact Eb|]. split; [exact Ea|]. split; assumption. }
+    unfold erase. cbv zeta. rewrite Eb, Ea. cbn [bind].
+    match goal with |- context [erase_choose_deleted ?a ?b ?c] => destruct (erase_choose_deleted a b c) end.
+    - destruct (erase_aux t i DELETED (growth_left t) H Hm Hi Hf ltac:(left; split; reflexivity)) as (t1 & E1 & _ & Hb).
+      rewrite E1. cbn [bind]. eexists. split; [reflexivity|exact Hb].
+    - destruct (erase_aux t i EMPTY (wadd 64 (growth_left t) 1) H Hm Hi Hf ltac:(right; split; reflexivity)) as (t1 & E1 & _ & Hb).
+      rewrite E1. cbn [bind]. eexists. split; [reflexivity|exact Hb].
   Qed.
 
   (* -------------------------------------------------------------------------------------- *)
@@ -581,6 +610,7 @@ Print Assumptions occupants_length_items.
 Print Assumptions special_is_empty_iff.
 Print Assumptions insert_in_slot_safe.
 Print Assumptions erase_spec.
+Print Assumptions erase_choice.
 Print Assumptions remove_safe.
 Print Assumptions erase_drop_safe.
 Print Assumptions slot_write_value_safe.
